@@ -6,21 +6,212 @@ package main
 // store in Table.Lookup), and however the work is cut into steps (template / paths / substitution helpers).
 
 import (
+	"go/token"
+
 	"golang.org/x/tools/go/ssa"
 )
 
-// c13subst: the call substitutes a "$..." variable of the redirect template: strings.Replace(s, "$path", x, n) /
-// strings.ReplaceAll(s, "$path", x). Returns the variable and the replacement operand.
+// c13subst: the call substitutes a "$..." variable of the redirect template. Recognised by what it does, not by the
+// spelling: strings.Replace(s, "$path", x, n) / strings.ReplaceAll(s, "$path", x) with the variable as a constant, or a
+// call of a repository helper that is handed the variable as a constant argument and does the substitution with it -
+// through strings.Replace / ReplaceAll on its parameter, through a hand-written equivalent (strings.Cut / Index /
+// Split at the variable, the pieces glued round the replacement), or by passing both on to another such helper
+// (`expandVar(s, "$path", x)`, `(pathPair).replace("$path", repl)`). Returns the variable and the replacement operand
+// (a value of the function that contains the call).
 func c13subst(cc *ssa.CallCommon) (variable string, repl ssa.Value, ok bool) {
+	if old, nw, isStd := c13stdSubst(cc); isStd {
+		if s, isK := c13constStr(old); isK && (s == "$path" || s == "$host") {
+			return s, nw, true
+		}
+		return "", nil, false
+	}
+	sc := cc.StaticCallee()
+	if cc.IsInvoke() || sc == nil || !isRepoFn(sc) || len(sc.Blocks) == 0 || len(sc.Params) != len(cc.Args) {
+		return "", nil, false
+	}
+	for k, a := range cc.Args {
+		s, isK := c13constStr(a)
+		if !isK || (s != "$path" && s != "$host") {
+			continue
+		}
+		if idx, isSub := c13substituter(sc, k, 0); isSub && idx < len(cc.Args) {
+			return s, cc.Args[idx], true
+		}
+	}
+	return "", nil, false
+}
+
+// c13stdSubst: the standard-library spellings of "replace old by new in s".
+func c13stdSubst(cc *ssa.CallCommon) (old, nw ssa.Value, ok bool) {
+	if cc.IsInvoke() {
+		return nil, nil, false
+	}
 	n := calleeName(cc)
-	if !(n == "strings.Replace" && len(cc.Args) == 4) && !(n == "strings.ReplaceAll" && len(cc.Args) == 3) {
-		return "", nil, false
+	if (n == "strings.Replace" && len(cc.Args) == 4) || (n == "strings.ReplaceAll" && len(cc.Args) == 3) {
+		return cc.Args[1], cc.Args[2], true
 	}
-	old, isK := constString(cc.Args[1])
-	if !isK || (old != "$path" && old != "$host") {
-		return "", nil, false
+	return nil, nil, false
+}
+
+// c13constStr: v is a string constant, also behind a conversion (a small `type variable string`).
+func c13constStr(v ssa.Value) (string, bool) {
+	for depth := 0; depth < 3; depth++ {
+		switch x := v.(type) {
+		case *ssa.ChangeType:
+			v = x.X
+			continue
+		case *ssa.Convert:
+			v = x.X
+			continue
+		}
+		break
 	}
-	return old, cc.Args[2], true
+	if s, ok := constString(v); ok {
+		return s, true
+	}
+	// a package-level `var pathVar = "$path"`: the one constant its package initialiser stores
+	if u, ok := v.(*ssa.UnOp); ok && u.Op == token.MUL {
+		if g, isG := u.X.(*ssa.Global); isG && g.Pkg != nil {
+			if ini := g.Pkg.Func("init"); ini != nil {
+				val, n := "", 0
+				eachInstr(ini, func(i ssa.Instruction) {
+					if st, isSt := i.(*ssa.Store); isSt && st.Addr == g {
+						n++
+						if k, isK := constString(st.Val); isK {
+							val = k
+						} else {
+							n += 2
+						}
+					}
+				})
+				if n == 1 {
+					return val, true
+				}
+			}
+		}
+	}
+	return "", false
+}
+
+// c13paramIndex: v is parameter number k of fn (receiver first) - itself, a load of the cell it was spilled to, or a
+// conversion of it; -1 otherwise.
+func c13paramIndex(fn *ssa.Function, v ssa.Value) int {
+	for depth := 0; depth < 4; depth++ {
+		switch x := v.(type) {
+		case *ssa.Parameter:
+			for k, p := range fn.Params {
+				if p == x {
+					return k
+				}
+			}
+			return -1
+		case *ssa.ChangeType:
+			v = x.X
+		case *ssa.Convert:
+			v = x.X
+		case *ssa.UnOp:
+			a, isA := x.X.(*ssa.Alloc)
+			if x.Op != token.MUL || !isA {
+				return -1
+			}
+			var only ssa.Value
+			for _, r := range *a.Referrers() {
+				if st, isSt := r.(*ssa.Store); isSt && st.Addr == a {
+					if only != nil {
+						return -1
+					}
+					only = st.Val
+				}
+			}
+			if only == nil {
+				return -1
+			}
+			v = only
+		default:
+			return -1
+		}
+	}
+	return -1
+}
+
+// c13fromParamOf: the first parameter of fn other than `not` from which v derives; -1 if none.
+func c13fromParamOf(fn *ssa.Function, v ssa.Value, not map[int]bool) int {
+	for k, p := range fn.Params {
+		if not[k] {
+			continue
+		}
+		if derives(v, sameVal(p)) {
+			return k
+		}
+	}
+	return -1
+}
+
+// c13substituter: fn replaces the variable it receives as parameter idxOld by (a value derived from) another of its
+// parameters; returns the index of that parameter.
+func c13substituter(fn *ssa.Function, idxOld, depth int) (idxNew int, ok bool) {
+	if depth > 2 || idxOld >= len(fn.Params) {
+		return 0, false
+	}
+	idxNew = -1
+	for _, b := range fn.Blocks {
+		for _, i := range b.Instrs {
+			cc := callCommon(i)
+			if cc == nil || idxNew >= 0 {
+				continue
+			}
+			if old, nw, isStd := c13stdSubst(cc); isStd {
+				if c13paramIndex(fn, old) == idxOld {
+					idxNew = c13fromParamOf(fn, nw, map[int]bool{idxOld: true})
+				}
+				continue
+			}
+			switch n := calleeName(cc); n {
+			case "strings.Cut", "strings.Index", "strings.Split", "strings.SplitN", "strings.SplitAfterN", "strings.Fields":
+				// the hand-written replace: s is cut at the variable and the pieces are glued round the replacement
+				if cc.IsInvoke() || len(cc.Args) < 2 || c13paramIndex(fn, cc.Args[1]) != idxOld {
+					continue
+				}
+				not := map[int]bool{idxOld: true}
+				subj := c13fromParamOf(fn, cc.Args[0], not)
+				if subj >= 0 {
+					not[subj] = true
+				}
+				call, _ := i.(*ssa.Call)
+				piece := func(v ssa.Value) bool {
+					return (call != nil && derives(v, sameVal(call))) || (subj >= 0 && derives(v, sameVal(fn.Params[subj])))
+				}
+				for _, b2 := range fn.Blocks {
+					for _, j := range b2.Instrs {
+						bo, isBo := j.(*ssa.BinOp)
+						if !isBo || bo.Op != token.ADD || idxNew >= 0 || typeStr(bo.Type().Underlying()) != "string" {
+							continue
+						}
+						// a piece of the subject glued to something that comes from another parameter
+						for _, side := range [][2]ssa.Value{{bo.X, bo.Y}, {bo.Y, bo.X}} {
+							if idxNew < 0 && piece(side[0]) {
+								idxNew = c13fromParamOf(fn, side[1], not)
+							}
+						}
+					}
+				}
+				continue
+			}
+			sc := cc.StaticCallee()
+			if cc.IsInvoke() || sc == nil || sc == fn || !isRepoFn(sc) || len(sc.Blocks) == 0 || len(sc.Params) != len(cc.Args) {
+				continue
+			}
+			for k, a := range cc.Args {
+				if c13paramIndex(fn, a) != idxOld {
+					continue
+				}
+				if inner, isSub := c13substituter(sc, k, depth+1); isSub && inner < len(cc.Args) {
+					idxNew = c13fromParamOf(fn, cc.Args[inner], map[int]bool{idxOld: true})
+				}
+			}
+		}
+	}
+	return idxNew, idxNew >= 0
 }
 
 type c13builders struct {
@@ -42,7 +233,11 @@ func (b *c13builders) isParam(v ssa.Value) bool {
 // functions, the same-package helpers they call (steps that compute the replacement) and their static callers in the
 // package (wrappers that pass the request on). A function belongs to it when it has a *url.URL parameter from which the
 // replacement derives; only when no function takes the URL, a *http.Request parameter counts instead.
-func c13findBuilders(c *Ctx) *c13builders {
+func c13findBuilders(c *Ctx) *c13builders { return c13findBuildersFor(c, false) }
+
+// c13findBuildersFor: withHost also counts the "$host" substitution, so that a builder whose $path replacement no
+// longer comes from the request at all (the very defect P1 reports) still resolves through its $host substitution.
+func c13findBuildersFor(c *Ctx, withHost bool) *c13builders {
 	sp := c.spkg("route")
 	if sp == nil {
 		return &c13builders{params: map[*ssa.Parameter]int{}}
@@ -54,7 +249,7 @@ func c13findBuilders(c *Ctx) *c13builders {
 		has := false
 		eachInstr(f, func(i ssa.Instruction) {
 			if cc := callCommon(i); cc != nil {
-				if v, r, ok := c13subst(cc); ok && v == "$path" {
+				if v, r, ok := c13subst(cc); ok && (v == "$path" || withHost) {
 					repls = append(repls, r)
 					has = true
 				}
